@@ -1,5 +1,47 @@
 """Translators: regenerate lean/SqlfluffVerif/Gen/*.lean from /repo's live objects."""
+import json
+
+from vlib import core
+
+
+def known_dangling():
+    """{dialect: set(names)} from known_findings.json (kind=known, key dangling:<dialect>:<name>)."""
+    out = {}
+    for f in core.load_findings():
+        if f["property"] == "C29" and f.get("kind") == "known" and f["key"].startswith("dangling:"):
+            _, d, name = f["key"].split(":", 2)
+            out.setdefault(d, set()).add(name)
+    return out
+
+
+def gen_dialects(report=None):
+    """Regenerate Gen/Dialect_*.lean and Gen/Dialects.lean. Returns {label: info | {'error': str}}."""
+    from translate import dialect_graph as dg
+    known = known_dangling()
+    infos = {}
+    mods = []
+    for label in dg.load_dialects():
+        try:
+            g = dg.walk_dialect(label)
+        except Exception as e:  # a dialect that fails to load is itself the failing input
+            infos[label] = {"error": "%s: %s" % (type(e).__name__, e)}
+            continue
+        text, info = dg.emit_lean(label, g, known.get(label, set()))
+        info["graph"] = g
+        infos[label] = info
+        mod = "Dialect_" + dg.lean_ident(label)[2:]
+        core.write_if_changed(core.GEN / (mod + ".lean"), text)
+        mods.append(mod)
+    allsrc = "".join("import SqlfluffVerif.Gen.%s\n" % m for m in mods)
+    allsrc += "/-! GENERATED: imports every per-dialect reference-graph obligation. -/\n"
+    core.write_if_changed(core.GEN / "Dialects.lean", allsrc)
+    return infos
 
 
 def run_all():
-    pass
+    gen_dialects()
+    try:
+        from translate import rule_table
+        rule_table.generate()
+    except ImportError:
+        pass
